@@ -61,6 +61,12 @@ def lineStartOf (b : Bytes) (pos : Nat) : Nat :=
 def lineEndOf (b : Bytes) (pos : Nat) : Nat :=
   match findNextLB b pos false with | some v => v | none => b.length
 
+/-- end of the coloured span: the region's end, short of the line break and of the carriage return of a CRLF
+    line ending -/
+def colorEndOf (b : Bytes) (start stop lineEnd : Nat) : Nat :=
+  let ce := min stop lineEnd
+  if ce = lineEnd ∧ start < ce ∧ b[ce - 1]? = some (.lead '\r') then ce - 1 else ce
+
 /-- `build_pretty_string_item` -/
 def buildItem (b : Bytes) (start stop : Nat) (isRemoval coloring : Bool) (lineRange : Option (Nat × Nat)) :
     R (List Char) := do
@@ -69,7 +75,7 @@ def buildItem (b : Bytes) (start stop : Nat) (isRemoval coloring : Bool) (lineRa
   let lineStart := lineStartOf b start
   let lineEndStart := lineStartOf b (stop - 1)
   let lineEnd := lineEndOf b (stop - 1)
-  let colorEnd := min stop lineEnd
+  let colorEnd := colorEndOf b start stop lineEnd
   let (mStartCol, mEndCol, startCol, resetCol) :=
     if coloring then (colGreen, colGreen, if isRemoval then colRed else colYellow, colReset)
     else ([], [], [], [])
